@@ -1,0 +1,99 @@
+//go:build verif
+
+// Contracts for deductive verification (comment-only; read by /verif/govc, never compiled into the product).
+
+package channel
+
+// ---------------------------------------------------------------------------------------------------------
+// C13: outbound channels connect to where the matching inbound channel was bound
+
+// endpoints: retargeting keeps port / path and transport and sets the host; binding uses host "*"
+//@ func (t TcpEndpoint) ToTargetEndpoint(taskHostname string) (e Endpoint)
+//@   property C13
+//@   pure
+//@   ensures e is TcpEndpoint && e.(TcpEndpoint).Host == taskHostname && e.(TcpEndpoint).Port == t.Port && e.(TcpEndpoint).Transport == t.Transport
+//@ func (t TcpEndpoint) ToBoundEndpoint() (e Endpoint)
+//@   property C13
+//@   pure
+//@   ensures e is TcpEndpoint && e.(TcpEndpoint).Host == "*" && e.(TcpEndpoint).Port == t.Port && e.(TcpEndpoint).Transport == t.Transport
+//@ func (t TcpEndpoint) GetTransport() (tr TransportType)
+//@   property C13
+//@   pure
+//@   ensures tr == t.Transport
+//@ func (t IpcEndpoint) ToTargetEndpoint(host string) (e Endpoint)
+//@   property C13
+//@   pure
+//@   ensures e is IpcEndpoint && e.(IpcEndpoint).Path == t.Path && e.(IpcEndpoint).Transport == t.Transport
+//@ func (t IpcEndpoint) ToBoundEndpoint() (e Endpoint)
+//@   property C13
+//@   pure
+//@   ensures e is IpcEndpoint && e.(IpcEndpoint).Path == t.Path && e.(IpcEndpoint).Transport == t.Transport
+//@ func (t IpcEndpoint) GetTransport() (tr TransportType)
+//@   property C13
+//@   pure
+//@   ensures tr == t.Transport
+
+// Endpoint interface: value-level, no side effects (assumed for every implementation; the two implementations above are
+// verified field by field)
+//@ ghost func addrOfE(e Endpoint) string
+//@ ghost func trOfE(e Endpoint) TransportType
+//@ ghost func boundOfE(e Endpoint) Endpoint
+//@ ghost func targetOfE(e Endpoint, host string) Endpoint
+//@ func (e Endpoint) GetAddress() (a string)
+//@   noverify
+//@   pure
+//@   ensures a == addrOfE(e)
+//@ func (e Endpoint) GetTransport() (t TransportType)
+//@   noverify
+//@   pure
+//@   ensures t == trOfE(e)
+//@ func (e Endpoint) ToBoundEndpoint() (b Endpoint)
+//@   noverify
+//@   pure
+//@   ensures b == boundOfE(e)
+//@ func (e Endpoint) ToTargetEndpoint(taskHostname string) (b Endpoint)
+//@   noverify
+//@   pure
+//@   ensures b == targetOfE(e, taskHostname)
+
+// Outbound: an explicit tcp:// or ipc:// target is passed through unchanged with the channel's own transport; otherwise
+// the address and transport are those of the endpoint registered in the bind map under EXACTLY the target's name; a target
+// that matches nothing is an error.
+//@ func (outbound *Outbound) ToFMQMap(bindMap BindMap) (pm controlcommands.PropertyMap, err error)
+//@   property C13
+//@   ghostvar hasAddr bool = false
+//@   ghostvar hasTr bool = false
+//@   ghostvar gotAddr string = ""
+//@   ghostvar gotTr TransportType = DEFAULT
+//@   ghostvar built bool = false
+//@   on call .GetAddress : assert (outbound.Target in bindMap) && recv == bindMap[outbound.Target] ; hasAddr = true
+//@   on aftercall .GetAddress : gotAddr = result
+//@   on call .GetTransport : assert (outbound.Target in bindMap) && recv == bindMap[outbound.Target] ; hasTr = true
+//@   on aftercall .GetTransport : gotTr = result
+//@   on call (*Outbound).buildFMQMap : assert !built && ((explicitTarget(outbound.Target) && arg1 == outbound.Target && arg2 == outbound.Transport) || (!explicitTarget(outbound.Target) && hasAddr && hasTr && arg1 == gotAddr && arg2 == gotTr)) ; built = true
+//@   loop 1 invariant forall k string :: #visited[k] ==> k != outbound.Target
+//@   ensures outbound != nil && !explicitTarget(old(outbound.Target)) && !old(outbound.Target in bindMap) ==> err != nil && !built
+//@   ensures outbound != nil && !explicitTarget(old(outbound.Target)) && old(outbound.Target in bindMap) ==> err == nil
+//@   ensures outbound != nil && explicitTarget(old(outbound.Target)) ==> err == nil
+//@ ghost pure func explicitTarget(t string) bool = strings.hasPfx(t, "tcp://") || strings.hasPfx(t, "ipc://")
+
+// Inbound: an explicit target is passed through; any other non-empty target is an error; otherwise the channel binds the
+// endpoint registered under ITS OWN NAME in the task's local bind map, in bound form.
+//@ func (inbound *Inbound) ToFMQMap(bindMap BindMap) (pm controlcommands.PropertyMap, err error)
+//@   property C13
+//@   ghostvar looked Endpoint = nil
+//@   ghostvar lookedOk bool = false
+//@   ghostvar bound Endpoint = nil
+//@   ghostvar gotAddr string = ""
+//@   ghostvar gotTr TransportType = DEFAULT
+//@   ghostvar built bool = false
+//@   on lookup bindMap : assert key == inbound.Name ; looked = result0 ; lookedOk = result1
+//@   on call .ToBoundEndpoint : assert lookedOk && recv == looked
+//@   on aftercall .ToBoundEndpoint : bound = result
+//@   on call .GetAddress : assert recv == bound
+//@   on aftercall .GetAddress : gotAddr = result
+//@   on call .GetTransport : assert lookedOk && recv == looked
+//@   on aftercall .GetTransport : gotTr = result
+//@   on call (*Inbound).buildFMQMap : assert !built && ((explicitTarget(inbound.Target) && arg1 == inbound.Target && arg2 == inbound.Transport) || (!explicitTarget(inbound.Target) && len(inbound.Target) == 0 && lookedOk && arg1 == gotAddr && arg2 == gotTr)) ; built = true
+//@   ensures inbound != nil && !explicitTarget(old(inbound.Target)) && len(old(inbound.Target)) != 0 ==> err != nil && !built
+//@   ensures err == nil ==> built
